@@ -75,7 +75,7 @@ class UnitsEngine(Engine):
     expected_probes = ['named_after_random', 'unseeded_reset', 'named_sweep_subsets', 'precedence_pow_before_mul',
                        'precedence_left_to_right_div', 'nested_parens', 'whitespace_variants', 'cross_epoch_compared',
                        'style_fit_done', 'literal_with_unit', 'array_roundtrip', 'refused_reset_raised', 'integer_dtype_value',
-                       'scribble_on_literal_result']
+                       'scribble_on_literal_result', 'named_keywords_in_other_order']
     rule = ('Each run is a history of up to 40 operations on the process-global unit tables: working-unit resets (seeded '
             'random, unseeded random through the patched random seam, SI, atomman default, named subsets of length/mass/'
             'time/energy/charge with unit names drawn from a 31-name vocabulary, refused resets) interleaved with queries: '
@@ -176,6 +176,8 @@ class UnitsEngine(Engine):
             elif kind == 'named':
                 sub = r.choice(SUBSETS)
                 op['named'] = {q: r.choice(QNAMES[q]) for q in sub}
+                # keyword arguments in whatever order the caller wrote them (replay files sort dict keys: the order is recorded)
+                op['order'] = r.sample(list(sub), len(sub))
             return op
         if k == 'roundtrip':
             shape = r.choice([(), (), (3,), (2, 3), (1,)])
@@ -255,7 +257,10 @@ class UnitsEngine(Engine):
         elif kind == 'default':
             ctx.must('C09.X', uc.reset_units, length='angstrom', mass='amu', energy='eV', charge='e', klass='reset/default')
         else:
-            named = {q: v for q, v in op['named'].items() if q in QUANT}
+            order = [q for q in op.get('order') or QUANT if q in op['named']] + [q for q in QUANT if q in op['named'] and q not in (op.get('order') or QUANT)]
+            named = {q: op['named'][q] for q in order if q in QUANT}
+            if list(named) != [q for q in QUANT if q in named]:
+                ctx.probe('named_keywords_in_other_order')
             if st['last_kind'] in ('seed', 'unseeded'):
                 ctx.probe('named_after_random')
             ctx.must('C09.X', uc.reset_units, klass='reset/named/' + '+'.join(sorted(named)), **named)
